@@ -449,6 +449,30 @@ def run_roundtrip(case, ctx: Ctx) -> None:
                     if s_ not in reported:
                         reported.add(s_)
                         ctx.fail(s_, f"{cols[j][1]}: wrote {r[j]!r} read {g[j + 1]!r} want {w!r}")
+        # the same rows read through fetch_pandas_all: the timestamp columns (the kind whose range pandas can narrow) are compared too
+        ts_cols = [j for j, f in enumerate(fams) if f == "ts_ntz"]
+        if ts_cols and case.get("read_pandas", True):
+            pc = conn.cursor()
+            try:
+                pc.execute(f"SELECT {', '.join(names)} FROM {target} ORDER BY rid")
+                df = pc.fetch_pandas_all()
+            except Exception as e:
+                ctx.fail(sig(f"fetch_pandas_all-raises|{etype_name(e)}", "ts_ntz"), f"{e}")
+                df = None
+            if df is not None:
+                ctx.cls("read-back-through-pandas")
+                for i, r in enumerate(rows):
+                    for j in ts_cols:
+                        g = df.iloc[i, j + 1]
+                        if hasattr(g, "to_pydatetime"):
+                            try:
+                                g = g.to_pydatetime()
+                            except Exception:
+                                pass
+                        is_null = g is None or g != g or str(g) == "NaT"
+                        if (r[j] is None) != is_null or (r[j] is not None and not is_null and g != r[j]):
+                            ctx.fail(sig("wrong-value|fetch_pandas_all", "ts_ntz"), f"{cols[j][1]}: wrote {r[j]!r}, fetch_pandas_all gives {g!r}")
+                            break
         by = run(conn.cursor(), "SELECT x, y FROM BYSTANDER ORDER BY x")
         if not by.ok or by.rows != [(1, "keep"), (2, None)]:
             ctx.fail(sig("bystander-changed", "rows"), f"{by}")
